@@ -808,3 +808,38 @@ RP("c18-sequence-cleaned-by-comprehension", "C18", "evolutions4/E18_refactor_2.d
 RP("c18-oldest-evicted-by-hand", "C18", "evolutions4/E18_refactor_3.diff")
 RP("c18-merge-as-dict-display", "C18", "evolutions4/E18_refactor_4.diff")
 RP("c18-create-with-named-steps", "C18", "evolutions4/E18_refactor_6.diff")
+
+# round 9 / campaign 8
+MP("c02-failed-watch-recorded-before-test", "C02", "C02.IDS", "C02-h1/patch.diff")
+MP("c02-class-level-short-name-memo", "C02", "C02.PATH", "C02-h2/patch.diff")
+MP("c02-no-frame-normalised-away", "C02", "C02.TYPE", "C02-h3/patch.diff")
+MP("c03-failed-context-requeued", "C03", "C03.DEFER", "C03-h1/patch.diff")
+MP("c03-threadlocal-default-shared", "C03", "C03.DEFER", "C03-h2/patch.diff")
+MP("c04-thread-local-statistics", "C04", "C04.STATE", "C04-h2/patch.diff")
+MP("c07-not-recorded-after-search", "C07", "C07.OPTIONAL", "C07-h3/patch.diff")
+MP("c11-per-action-guard-folded", "C11", "C11.EACHACT", "C11-h1/patch.diff")
+MP("c12-conversion-hoisted-out-of-guard", "C12", "C12.APPLY", "C12-h1/patch.diff")
+MP("c12-first-match-only", "C12", "C12.ACT", "C12-h3/patch.diff")
+MP("c13-one-guard-around-hand-over", "C13", "C13.ALONGSIDE", "C13-h1/patch.diff")
+MP("c14-initial-poll-narrow-guard", "C14", "C14.START", "C14-h1/patch.diff")
+MP("c14-class-level-pending-map", "C14", "C14.DRAIN", "C14-h2/patch.diff")
+MP("c14-list-changed-while-walked", "C14", "C14.D", "C14-h3/patch.diff")
+MP("c18-one-guard-around-provider-loop", "C18", "C18.CHAIN", "C18-h1/patch.diff")
+MP("c19-class-level-short-name-memo", "C19", "C19.FRAME", "C19-h2/patch.diff")
+MP("c20-merge-outside-guard", "C20", "C20.ISO", "C20-h1/patch.diff")
+MP("c20-lru-cache-on-plugin-lookup", "C20", "C20.LOAD", "C20-h2/patch.diff")
+MP("c20-order-none-not-defaulted", "C20", "C20.LOAD", "C20-h3/patch.diff")
+RP("c18-provider-step-helper-in-loop", "C18", "evolutions5/E19_refactor_1.diff")
+RP("c20-active-answer-held-in-local", "C20", "evolutions5/E19_refactor_2.diff")
+RP("c16-success-branch-first", "C16", "evolutions5/E19_refactor_5.diff")
+RP("c15-class-level-event-constants", "C15", "evolutions5/E20_refactor_2.diff")
+RP("c02-per-call-short-name-memo", "C02", "evolutions5/E20_refactor_3.diff")
+RP("c19-per-call-short-name-memo", "C19", "evolutions5/E20_refactor_3.diff")
+RP("c19-cached-pure-split", "C19", "evolutions5/E20_refactor_4.diff")
+RP("c13-copies-at-the-api-boundary", "C13", "evolutions5/E22_refactor_1.diff")
+RP("c04-config-built-by-helper", "C04", "evolutions5/E22_refactor_2.diff")
+RP("c13-config-built-by-helper", "C13", "evolutions5/E22_refactor_2.diff")
+RP("c16-attach-through-forwarder", "C16", "evolutions5/E22_refactor_5.diff")
+RP("c20-attach-through-forwarder", "C20", "evolutions5/E22_refactor_5.diff")
+RP("c03-guard-form-continue", "C03", "evolutions5/E21_refactor_4.diff")
+RP("c17-any-over-plugins", "C17", "evolutions5/E21_refactor_6.diff")
